@@ -663,7 +663,8 @@ Proof.
     + intros O L HL.
       eapply triple_ext; [|eapply triple_app with (L1 := fun u => L u \/ In u (tmps_of rs)); [apply T1; auto|
         eapply triple_cons with (L1 := fun u => ((L u \/ In u (tmps_of rs)) /\ ~ In u []) \/ u = d)]].
-      2:{ apply triple_one. intros s I HB. apply step_IOp; auto.
+      2:{ apply triple_one. intros s I HB.
+          apply (step_IOp O d rs [] s (fun u => L u \/ In u (tmps_of rs))); auto.
           - intros t Ht. right. apply in_tmps_of; auto.
           - constructor.
           - intros t [].
@@ -766,7 +767,8 @@ Proof.
         with ((cf ++ cf2) ++ ca ++ [IOp d (RTmp ft :: rs) (tmps_of rs ++ [ft])]) by (symmetry; apply app_assoc).
       eapply triple_ext; [|eapply triple_app with (L1 := fun u => L u \/ u = ft); [apply TF; auto|
         eapply triple_app with (L1 := fun u => (L u \/ u = ft) \/ In u (tmps_of rs)); [apply Ta|]]].
-      3:{ apply triple_one. intros s I HB. apply step_IOp; auto.
+      3:{ apply triple_one. intros s I HB.
+          apply (step_IOp O d (RTmp ft :: rs) (tmps_of rs ++ [ft]) s (fun u => (L u \/ u = ft) \/ In u (tmps_of rs))); auto.
           - intros t [Ht|Ht]; [injection Ht as <-; auto|]. right. apply in_tmps_of; auto.
           - apply NoDup_app_remove_l with (l := []). simpl.
             rewrite <- (rev_involutive (tmps_of rs ++ [ft])). apply NoDup_rev. rewrite rev_app_distr. simpl.
